@@ -265,7 +265,7 @@ func (e *Engine) appendOp(st *St, s, t *SliceV, elem types.Type) Value {
 	// read the appended values first
 	vals := make([]Value, nt)
 	for j := 0; j < nt; j++ {
-		vals[j] = e.Load(st, e.elemPtr(t, e.c64(int64(j))), "append source")
+		vals[j] = e.LoadIf(st, e.elemPtr(t, e.c64(int64(j))), S.SLt(e.c64(int64(j)), t.Len), "append source")
 		if vals[j] == nil {
 			vals[j] = e.Zero(elem)
 		}
@@ -309,7 +309,7 @@ func (e *Engine) appendOp(st *St, s, t *SliceV, elem types.Type) Value {
 			if in.IsFalse() {
 				break
 			}
-			v := e.Load(st, e.elemPtr(s, ck), "append copy")
+			v := e.LoadIf(st, e.elemPtr(s, ck), in, "append copy")
 			if v != nil {
 				cells[k] = e.Merge(in, v, z)
 			}
@@ -344,7 +344,7 @@ func (e *Engine) copyOp(st *St, dst, src *SliceV) Value {
 			m = j
 			break
 		}
-		vals[j] = e.Load(st, e.elemPtr(src, cj), "copy source")
+		vals[j] = e.LoadIf(st, e.elemPtr(src, cj), S.SLt(cj, n), "copy source")
 	}
 	for j := 0; j < m; j++ {
 		cj := e.c64(int64(j))
